@@ -478,6 +478,9 @@ func (g *c01Gen) block(d int, inLoop bool) st {
 	return st{pr{a.String(), b.String()}, cont}
 }
 
+// cont resolves the `continue` placeholders of a loop body: `with` is what a continue of this loop must execute
+func cont(body, with string) string { return strings.ReplaceAll(body, "@CONT@", with) }
+
 const c01Cap = "if (++cap > 40) break\n"
 
 func (g *c01Gen) stmt(d int, inLoop bool) st {
@@ -580,6 +583,7 @@ func (g *c01Gen) stmt(d int, inLoop bool) st {
 		body := g.block(d-1, true)
 		g.loops--
 		g.hit("stmt:while")
+		body.a, body.b = cont(body.a, "continue"), cont(body.b, "continue")
 		a := "while (" + c.a + ") {\n" + c01Cap + body.a + "}\n"
 		b := "while (" + c.b + ") {\n" + c01Cap + body.b + "}\n"
 		switch g.n(5) { // R9
@@ -597,11 +601,14 @@ func (g *c01Gen) stmt(d int, inLoop bool) st {
 		c := g.cond(d - 1)
 		g.loops--
 		g.hit("stmt:do")
-		a := "do {\n" + c01Cap + body.a + "} while (" + c.a + ")\n"
-		b := "do {\n" + c01Cap + body.b + "} while (" + c.b + ")\n"
-		if !body.cont && g.coin(1, 3) { // R10
-			b = "while (1) {\n" + c01Cap + body.b + "if (!(" + c.b + ")) break\n}\n"
+		a := "do {\n" + c01Cap + cont(body.a, "continue") + "} while (" + c.a + ")\n"
+		b := "do {\n" + c01Cap + cont(body.b, "continue") + "} while (" + c.b + ")\n"
+		if g.coin(1, 3) { // R10: a continue of a do-loop goes to the condition
+			b = "while (1) {\n" + c01Cap + cont(body.b, "{\nif (!("+c.b+")) break\ncontinue\n}") + "if (!(" + c.b + ")) break\n}\n"
 			g.hit("rewrite:R10")
+			if body.cont {
+				g.hit("rewrite:R10-with-continue")
+			}
 		}
 		return st{pr{a, b}, false}
 	case k < 18: // for
@@ -617,11 +624,14 @@ func (g *c01Gen) stmt(d int, inLoop bool) st {
 			ca, cb = "", ""
 			g.hit("stmt:for-nocond")
 		}
-		a := "for (" + pre.a + "; " + ca + "; " + post.a + ") {\n" + c01Cap + body.a + "}\n"
-		b := "for (" + pre.b + "; " + cb + "; " + post.b + ") {\n" + c01Cap + body.b + "}\n"
-		if hasCond && !body.cont && g.coin(1, 3) { // R10: the cap check uses break only
-			b = pre.b + "\nwhile (" + cb + ") {\n" + "if (++cap > 40) break\n" + body.b + post.b + "\n}\n"
+		a := "for (" + pre.a + "; " + ca + "; " + post.a + ") {\n" + c01Cap + cont(body.a, "continue") + "}\n"
+		b := "for (" + pre.b + "; " + cb + "; " + post.b + ") {\n" + c01Cap + cont(body.b, "continue") + "}\n"
+		if hasCond && g.coin(1, 3) { // R10: a continue of a for-loop runs the post statement first; the cap check uses break only
+			b = pre.b + "\nwhile (" + cb + ") {\n" + "if (++cap > 40) break\n" + cont(body.b, "{\n"+post.b+"\ncontinue\n}") + post.b + "\n}\n"
 			g.hit("rewrite:R10")
+			if body.cont {
+				g.hit("rewrite:R10-with-continue")
+			}
 		}
 		return st{pr{a, b}, false}
 	case k < 19:
@@ -631,7 +641,7 @@ func (g *c01Gen) stmt(d int, inLoop bool) st {
 				return st{same("break\n"), false}
 			}
 			g.hit("stmt:continue")
-			return st{same("continue\n"), true}
+			return st{same("@CONT@\n"), true} // resolved by the enclosing loop (see cont)
 		}
 		if !g.fn && g.coin(1, 6) {
 			if g.next && g.coin(1, 2) {
